@@ -149,6 +149,48 @@ def mech_const_clamp(site):
     return None
 
 
+def _leaf_ids(fn, op, depth=10):
+    out = set()
+    if op.get("k") not in ("copy", "move"):
+        return out
+    for o in F.origins(fn, op, depth=depth):
+        if o.kind == "arg":
+            out.add(("arg", o.arg))
+        elif o.kind == "place" and o.place is not None:
+            out.add(("place", o.place["l"]))
+        elif o.kind == "call" and not F.TRANSPARENT.search(short(o.call.name)) and \
+                not re.search(r"::(iter|iter_mut|into_iter|enumerate|deref|as_slice|by_ref)$", short(o.call.name)):
+            out.add(("call", o.call.bb))
+    return out
+
+
+def mech_position_index(site):
+    """`v[i]` where i was produced by `v.iter().position(..)` (or rposition) on the same, since unmodified, container: in bounds"""
+    if site.kind != "api:index" or site.call is None or len(site.call.args) < 2:
+        return None
+    fn = site.fn
+    idx = site.call.args[1]
+    if idx.get("k") not in ("copy", "move"):
+        return None
+    pos_calls = [o.call for o in F.origins(fn, idx, depth=10)
+                 if o.kind == "call" and re.search(r"Iterator>?::(position|rposition)$|::find_position$", short(o.call.name))]
+    if not pos_calls:
+        return None
+    cont = _leaf_ids(fn, site.call.args[0])
+    if not cont:
+        return None
+    for pc in pos_calls:
+        if not (_leaf_ids(fn, pc.args[0]) & cont):
+            return None
+        # no mutable borrow of the container between finding the position and using it
+        roots = set(x[1] for x in cont if x[0] in ("place", "arg"))
+        after = fn.reachable_from(pc.bb)
+        for i, st in fn.stmts():
+            if i in after and st["k"] == "assign" and st["rv"]["k"] == "ref" and st["rv"].get("bk") == "mut" and st["rv"]["pl"]["l"] in roots:
+                return None
+    return "index returned by position() on the same container (in bounds by construction)"
+
+
 def mech_lengths(site):
     if site.kind == "cast" and site.stmt is not None:
         rv = site.stmt["rv"]
@@ -365,7 +407,7 @@ def run_inventory(R, rid, root_name, desc, restrict=None):
     for key in sorted(by_key):
         ss = by_key[key]
         for idx, s in enumerate(sorted(ss, key=lambda s: (s.file, s.line))):
-            how = mech_const_divisor(s) or mech_counter(s) or mech_const_ctor(s) or mech_lengths(s) or mech_const_clamp(s)
+            how = mech_const_divisor(s) or mech_counter(s) or mech_const_ctor(s) or mech_lengths(s) or mech_const_clamp(s) or mech_position_index(s)
             if how:
                 R.ok(rid, key, "mechanical: " + how, s.loc(), nontrivial=False)
                 continue
